@@ -127,6 +127,15 @@ def eval_case(ops, l, r, exp, others):
             got = tis.calc_cv_vector(p, [float(x) for x in intf], moves, cap=None if cap is None else float(cap))
             if list(got) != expv:
                 fails.append(("cv_vector", f"calc_cv_vector {list(got)} for {ops}, interfaces {intf}, moves {moves}, cap {cap}; specification {expv}"))
+            # the weights do not depend on where the origin of the order parameter is: the same case with the cap (or the last /
+            # first interface) sitting exactly at 0.0 - a natural value for a double well - must give the same vector
+            for shift in sorted({intf[0], intf[-1]} | ({cap} if cap is not None else set())):
+                ps = mkpath([x - shift for x in ops])
+                gs = tis.calc_cv_vector(ps, [float(x - shift) for x in intf], moves, cap=None if cap is None else float(cap - shift))
+                if list(gs) != expv:
+                    fails.append(("cv_vector:origin", f"calc_cv_vector {list(gs)} for {[x - shift for x in ops]}, interfaces {[x - shift for x in intf]}, moves {moves}, "
+                                                      f"cap {None if cap is None else cap - shift}; specification {expv} (the case {ops} / {intf} / {cap} moved by {-shift})"))
+                    break
             gm = tis.calc_cv_vector(p, [float(x) for x in intf], moves, minus=True)
             if gm != ((1.0,) if intf[0] <= max(ops) else (0.0,)):
                 fails.append(("cv_vector:minus", f"[0-] weight vector {gm} for {ops} and lambda_0 = {intf[0]}"))
